@@ -19,7 +19,10 @@ pub(crate) fn completions_for_attribute_name(ent: EntRef<'_>) -> Vec<CompletionI
     ]);
 
     match ent.kind() {
-        AnyEntKind::Type(typ) => extend_attributes_of_type(typ, &mut attributes),
+        AnyEntKind::Type(typ) => {
+            extend_attributes_of_type(typ, &mut attributes);
+            attributes.push(AttributeDesignator::Type(TypeAttribute::Base));
+        }
         AnyEntKind::Object(obj) => extend_attributes_of_objects(obj, &mut attributes),
         AnyEntKind::View(_) => attributes.push(AttributeDesignator::Converse),
         _ => {}
@@ -126,6 +129,50 @@ end package;
             High,
             Low,
             Length,
+            InstanceName,
+            SimpleName,
+            PathName,
+        ]
+        .map(CompletionItem::Attribute);
+
+        assert_eq_unordered(&options, &expected_options);
+    }
+
+    #[test]
+    pub fn completes_type_attributes() {
+        use crate::ast::AttributeDesignator::*;
+        use crate::ast::TypeAttribute::*;
+
+        let mut builder = LibraryBuilder::new();
+        let code = builder.code(
+            "libA",
+            "\
+package my_pkg is
+    type foo is range 0 to 3;
+    constant bar: NATURAL := foo'
+end package;
+",
+        );
+
+        let (root, _) = builder.get_analyzed_root();
+        let cursor = code.s1("foo'").end();
+        let options = list_completion_options(&root, code.source(), cursor);
+
+        let expected_options = [
+            Type(Base),
+            Left,
+            Right,
+            Low,
+            High,
+            Ascending,
+            Image,
+            Value,
+            Pos,
+            Val,
+            Succ,
+            Pred,
+            LeftOf,
+            RightOf,
             InstanceName,
             SimpleName,
             PathName,
